@@ -6,10 +6,10 @@ from .. import ref, cfgspace
 from ..ast import bind, show, walk, is_var
 
 ID = "C14"
-RULE = ("Mode G+M: EVERY configurator with 1..2 rules from a 36-rule menu (incl. defaulted rules whose non-default alternative is a compound package shared with other rules) (cc.Any / cc.Xor with and without default at every position, "
+RULE = ("Mode G+M: EVERY configurator with 1..2 rules from a 37-rule menu (incl. defaulted rules whose non-default alternative is a compound package shared with other rules) (cc.Any / cc.Xor with and without default at every position, "
         "pg.Any, pg.Xor, AtMost(k), All, Imply with item/All/Any conditions and item/All/defaulted consequences; explicit and generated rule "
         "ids) x EVERY priority dictionary of the alphabet (0..3 ids, values in {-3..3}\\{0}: ties, several levels, negatives, a rule id, an "
-        "unknown id) -> select(*prios, solver=capture). oracle: over ALL feasible 0/1 points of the polyhedron the captured objective is "
+        "unknown id) -> select(*prios, solver=capture), on the configurator as built and again after StingyConfigurator.from_json(to_json()). oracle: over ALL feasible 0/1 points of the polyhedron the captured objective is "
         "strictly increasing in the lexicographic key (user levels by descending magnitude with signed counts, then -#selected prio -2 "
         "tags, then -#selected remaining columns) and constant inside a key (= all pairs, by one sort); default_prio_vector is -1 with "
         "-2 exactly at the non-default branch nodes, which are checked against the rule definitions; derived: a feasible top-priority "
@@ -55,6 +55,8 @@ def run_shard(desc, acc, tier):
     first = {}
     for k in range(lo, hi):
         check_cfg(k, tier, acc)
+        if k % 2 == 0 or "|" in cfgs(tier)[k][0]:
+            check_cfg(k, tier, acc, via_json=True)      # the same configurator after a JSON round trip (every defaulted one, every second other one)
         d = cfg_digest(k, tier)
         if d is not None:
             first[k] = d
@@ -117,12 +119,17 @@ def lex_key(x, ids, prio, tags):
     return tuple(key)
 
 
-def check_cfg(k, tier, acc, only=None):
+def check_cfg(k, tier, acc, only=None, via_json=False):
     name, ast = cfgs(tier)[k]
-    case0 = {"tier": tier, "k": k, "cfg": name}
+    case0 = {"tier": tier, "k": k, "cfg": name, "via_json": via_json}
     clear_caches()
     try:
         cfg, _ = bind(ast)
+        if via_json:
+            import json as _json
+            if cfg.errors():
+                return
+            cfg = cc.StingyConfigurator.from_json(_json.loads(_json.dumps(cfg.to_json())))
         if cfg.errors():
             acc.n("skipped_invalid")
             return
@@ -142,8 +149,12 @@ def check_cfg(k, tier, acc, only=None):
     objs_ = list(walk(cfg).values())
     tagged = {o.id for o in objs_ if getattr(o, "prio", -1) != -1}
     got_sets = sorted({tuple(sorted(p.id for p in o.propositions)) for o in objs_ if getattr(o, "prio", -1) != -1})
-    want_sets = sorted({tuple(sorted(s)) for s in expected_tags(ast)})
-    if any(getattr(o, "prio", -1) not in (-1, -2) for o in objs_) or got_sets != want_sets:
+    exp = expected_tags(ast)
+    known = sorted({tuple(sorted(s)) for s in exp if None not in s})          # alternatives with generated ids cannot be named from the AST
+    n_unknown = len({s for s in exp if None in s})
+    want_sets = known
+    ok_tags = (set(known) <= set(got_sets)) and (len(got_sets) <= len(known) + n_unknown) and (n_unknown > 0 or got_sets == known)
+    if any(getattr(o, "prio", -1) not in (-1, -2) for o in objs_) or not ok_tags:
         acc.violation(None, case0, {"what": "prio -2 tags are not exactly the non-default branches of the defaulted rules", "tagged_children": got_sets,
                                     "expected": want_sets, "default_prios": {str(a): b for a, b in dp.items()}})
         return
@@ -224,4 +235,4 @@ def replay(case, acc):
     if case.get("reverse"):
         run_shard((case["lo"], case["hi"]), acc, case["tier"])
         return
-    check_cfg(case["k"], case["tier"], acc, only=case.get("pi"))
+    check_cfg(case["k"], case["tier"], acc, only=case.get("pi"), via_json=bool(case.get("via_json")))
